@@ -75,21 +75,19 @@ def extract_atom(
     raise ValueError(f"Unsupported atomic expression: {expression}")
 
 
-def _recursive_pow_expression_to_pddl(expression: Pow, symbols_map: dict) -> str:
-    """Converts a recursive expression to a PDDL format.
+def _recursive_pow_expression_to_pddl(base_expression: str, exponent: int) -> str:
+    """Converts an integer power to a PDDL format, i.e., to repeated binary multiplications (and one division).
 
-    :param expression: the expression to convert.
+    :param base_expression: the PDDL expression of the base of the power.
+    :param exponent: the non-zero integer exponent.
     :return: the string representing the PDDL expression.
     """
-    exponent = expression.exp
-    compiled_expression = f"{symbols_map[expression.base]}"
-    if exponent == -1:
-        return f"(/ 1 {compiled_expression})"
+    compiled_expression = base_expression
+    for _ in range(abs(exponent) - 1):
+        compiled_expression = f"(* {compiled_expression} {base_expression})"
 
-    for _ in range(exponent - 1):
-        compiled_expression = (
-            f"(* {compiled_expression} {symbols_map[expression.base]})"
-        )
+    if exponent < 0:
+        return f"(/ 1 {compiled_expression})"
 
     return compiled_expression
 
@@ -114,18 +112,21 @@ def _convert_internal_expression_to_pddl(
             expression, symbols_map, decimal_digits, should_remove_trailing_zeros
         )
 
-    if isinstance(expression, Pow) and expression.exp == -1:
-        pddl_expression = _convert_internal_expression_to_pddl(
+    if isinstance(expression, Pow):
+        if not expression.exp.is_Integer or expression.exp == 0:
+            raise ValueError(f"Unsupported exponent in the expression: {expression}")
+
+        base_expression = _convert_internal_expression_to_pddl(
             expression.base,
             SYMPY_OP_TO_PDDL_OP[expression.base.func],
             symbols_map,
             decimal_digits,
             should_remove_trailing_zeros,
         )
-        return f"(/ 1 {pddl_expression})"
-
-    if isinstance(expression, Pow) and expression.exp > 1:
-        return _recursive_pow_expression_to_pddl(expression, symbols_map)
+        # a base that was rounded to zero and removed is the number zero.
+        return _recursive_pow_expression_to_pddl(
+            base_expression if base_expression else "0", int(expression.exp)
+        )
 
     # the expression is a binary expression with multiple arguments
     components = []
